@@ -71,6 +71,94 @@ example (f : S_refreshable_Refreshable) :
     cleanupArg (refreshFromURL f "d" (true, none) (true, none) none none none true (10, none) 10 "rules").2.2 = some "nil" := by
   simp [refreshFromURL, cleanupArg]
 
+/-! ## Round 6: the cache-file path (`refreshFromFile`), the `file://` path and the dispatch in `Refresh` -/
+
+theorem file_missing_is_empty_success (f : S_refreshable_Refreshable) (stale : Bool) (p : String)
+    (op st : AbsPtr × Option String) (cl : Option String) (u : Unit) (after : Bool) (cp : Int × Option String) (s : String) :
+    let out := refreshFromFile f stale p op true st cl u after cp s
+    out.1 = "" ∧ out.2.1 = none ∧ names out.2.2 = ["Open", "Is"] := by
+  simp [refreshFromFile, names]
+
+theorem file_closed_exactly_once (f : S_refreshable_Refreshable) (stale : Bool) (p : String)
+    (op st : AbsPtr × Option String) (cl : Option String) (u : Unit) (isNE after : Bool) (cp : Int × Option String) (s : String) :
+    let out := refreshFromFile f stale p op isNE st cl u after cp s
+    ((isNE = true ∨ op.2 ≠ none) → "Close" ∉ names out.2.2 ∧ "Copy" ∉ names out.2.2 ∧ "Stat" ∉ names out.2.2 ∧ out.1 = "") ∧
+    ((isNE = false ∧ op.2 = none) → (names out.2.2).getLast? = some "Close" ∧ (names out.2.2).count "Close" = 1 ∧
+       (cl ≠ none → out.2.1 ≠ none)) := by
+  cases isNE <;> cases h1 : op.2 <;> cases stale <;> cases h2 : st.2 <;> cases after <;> cases h3 : cp.2 <;> cases cl <;>
+    simp [refreshFromFile, names, h1, h2, h3]
+
+theorem file_text_only_from_complete_fresh_read (f : S_refreshable_Refreshable) (stale : Bool) (p : String)
+    (op st : AbsPtr × Option String) (cl : Option String) (u : Unit) (isNE after : Bool) (cp : Int × Option String) (s : String) :
+    let out := refreshFromFile f stale p op isNE st cl u after cp s
+    (out.1 ≠ "" → out.1 = s ∧ isNE = false ∧ op.2 = none ∧ cp.2 = none ∧ (stale = true ∨ (st.2 = none ∧ after = true))) ∧
+    ("Copy" ∈ names out.2.2 ↔ (isNE = false ∧ op.2 = none ∧ (stale = true ∨ (st.2 = none ∧ after = true)))) ∧
+    (stale = true → "Stat" ∉ names out.2.2) ∧
+    ((isNE = false ∧ (op.2 ≠ none ∨ (stale = false ∧ st.2 ≠ none) ∨
+        ((stale = true ∨ (st.2 = none ∧ after = true)) ∧ cp.2 ≠ none))) → out.2.1 ≠ none ∧ out.1 = "") := by
+  cases isNE <;> cases h1 : op.2 <;> cases stale <;> cases h2 : st.2 <;> cases after <;> cases h3 : cp.2 <;> cases cl <;>
+    simp [refreshFromFile, names, h1, h2, h3]
+
+theorem stale_cache_not_read (f : S_refreshable_Refreshable) (p : String)
+    (op st : AbsPtr) (cl : Option String) (u : Unit) (cp : Int × Option String) (s : String) :
+    let out := refreshFromFile f false p (op, none) false (st, none) cl u false cp s
+    out.1 = "" ∧ out.2.1 = cl ∧ names out.2.2 = ["Open", "Is", "Stat", "ModTime", "After", "Close"] := by
+  cases cl <;> simp [refreshFromFile, names]
+
+theorem refresh_dispatch (f : S_refreshable_Refreshable) (stale isFile : Bool) (sch : String)
+    (a b : String × Option String) :
+    let out := Refresh f stale isFile sch a b
+    (isFile = true → out.1 = a.1 ∧ out.2.1 = a.2 ∧ names out.2.2 = ["EqualFold", "refreshFromFileOnly"]) ∧
+    (isFile = false → out.1 = b.1 ∧ out.2.1 = b.2 ∧ names out.2.2 = ["EqualFold", "useCachedOrRefreshFromURL"]) ∧
+    out.2.2.head? = some ("EqualFold", [sch, "file"]) := by
+  cases isFile <;> simp [Refresh, names]
+
+example (f : S_refreshable_Refreshable) :
+    (refreshFromFile f false "p" (true, none) false (true, none) none () true (5, none) "rules").1 = "rules" := by
+  simp [refreshFromFile]
+
+/-- A `file://` source: the file named by the URL is read whatever its age (`acceptStale` is the
+constant `true`), nothing else is consulted, and an error of the read is an error of the refresh with
+no text. -/
+theorem file_url_reads_only_that_file (f : S_refreshable_Refreshable) (path : String) (rf : String × Option String) :
+    let out := refreshFromFileOnly f path rf
+    out.2.2 = [("refreshFromFile", [toString true, path, "_"])] ∧
+    (rf.2 ≠ none → out.1 = "" ∧ out.2.1 ≠ none) ∧ (rf.2 = none → out.1 = rf.1 ∧ out.2.1 = none) := by
+  cases h : rf.2 <;> simp [refreshFromFileOnly, h]
+
+/-- The cache file is opened with the caller's `acceptStale` and the cache path, before anything else. -/
+theorem cache_read_first_with_callers_staleness (f : S_refreshable_Refreshable) (stale : Bool) (u : Unit)
+    (file url : String × Option String) (ru : AbsPtr) :
+    (useCachedOrRefreshFromURL f stale u file ru url).2.2[1]? =
+      some ("refreshFromFile", [toString stale, f.cachePath, "_"]) := by
+  cases h1 : file.2 <;> by_cases h3 : file.1 = "" <;> cases h2 : url.2 <;>
+    simp [useCachedOrRefreshFromURL, h1, h2, h3]
+
+/-- Composition of the two translated functions: a cache file that exists but is older than the
+staleness bound is not read, and the list is then fetched from its URL; a fresh, readable, non-empty
+cache file is used as it is and the URL is never contacted. -/
+theorem stale_cache_goes_to_url (f : S_refreshable_Refreshable) (p : String) (op st : AbsPtr) (u : Unit)
+    (cp : Int × Option String) (s : String) (ru : AbsPtr) (url : String × Option String) :
+    let rf := refreshFromFile f false p (op, none) false (st, none) none u false cp s
+    let out := useCachedOrRefreshFromURL f false u (rf.1, rf.2.1) ru url
+    "refreshFromURL" ∈ names out.2.2 ∧ "Copy" ∉ names rf.2.2 ∧ (url.2 = none → out.1 = url.1 ∧ out.2.1 = none) := by
+  cases h : url.2 <;> simp [refreshFromFile, useCachedOrRefreshFromURL, names, h]
+
+theorem fresh_cache_never_downloads (f : S_refreshable_Refreshable) (stale : Bool) (p : String) (op st : AbsPtr) (u : Unit)
+    (n : Int) (s : String) (hs : s ≠ "") (ru : AbsPtr) (url : String × Option String) :
+    let rf := refreshFromFile f stale p (op, none) false (st, none) none u true (n, none) s
+    let out := useCachedOrRefreshFromURL f stale u (rf.1, rf.2.1) ru url
+    "refreshFromURL" ∉ names out.2.2 ∧ out.1 = s ∧ out.2.1 = none := by
+  cases stale <;> simp [refreshFromFile, useCachedOrRefreshFromURL, names, hs]
+
+/-- An unreadable cache file (open, stat, read or close error) fails the refresh: the URL is not
+tried and no text is returned, so the caller keeps what it had. -/
+theorem cache_error_stops_refresh (f : S_refreshable_Refreshable) (stale : Bool) (u : Unit)
+    (t : String) (e : String) (ru : AbsPtr) (url : String × Option String) :
+    let out := useCachedOrRefreshFromURL f stale u (t, some e) ru url
+    out.1 = "" ∧ out.2.1 ≠ none ∧ "refreshFromURL" ∉ names out.2.2 := by
+  simp [useCachedOrRefreshFromURL, names]
+
 end Agd.Tie.TrC13
 
 #print axioms Agd.Tie.TrC13.translation_complete
@@ -78,3 +166,13 @@ end Agd.Tie.TrC13
 #print axioms Agd.Tie.TrC13.replace_only_after_complete_download
 #print axioms Agd.Tie.TrC13.empty_body_rejected
 #print axioms Agd.Tie.TrC13.url_only_when_cache_is_stale
+#print axioms Agd.Tie.TrC13.file_missing_is_empty_success
+#print axioms Agd.Tie.TrC13.file_closed_exactly_once
+#print axioms Agd.Tie.TrC13.file_text_only_from_complete_fresh_read
+#print axioms Agd.Tie.TrC13.stale_cache_not_read
+#print axioms Agd.Tie.TrC13.refresh_dispatch
+#print axioms Agd.Tie.TrC13.file_url_reads_only_that_file
+#print axioms Agd.Tie.TrC13.cache_read_first_with_callers_staleness
+#print axioms Agd.Tie.TrC13.stale_cache_goes_to_url
+#print axioms Agd.Tie.TrC13.fresh_cache_never_downloads
+#print axioms Agd.Tie.TrC13.cache_error_stops_refresh
